@@ -1367,6 +1367,9 @@ class WcParse(Generic[AnyStr]):
                     current.append(value)
                 self.consume_path_sep(i)
                 current.append(sep)
+            elif len(current) > 1 and current[-2] == f'({value})':
+                # Consecutive `globstar` count as one: a `***` absorbs a preceding `**` (no symlink filtering)
+                current[-2] = value
             self.set_start_dir()
         else:
             current.append(value)
